@@ -8,7 +8,7 @@ Open Scope Z_scope.
 (* ---- specification vocabulary ---------------------------------------------- *)
 (* pre-order listing of an item and everything below it *)
 Fixpoint preorder (it : item) : list item :=
-  it :: match it with Item _ _ _ _ ks => flat_map preorder ks end.
+  it :: match it with Item _ _ _ _ _ ks => flat_map preorder ks end.
 (* every item strictly below a node, document order *)
 Definition descendants (node : item) : list item := flat_map preorder (i_kids node).
 
@@ -29,11 +29,11 @@ Definition tup (e : evd) : Z * Z * Z * Z := (e_study e, e_series e, e_uid e, e_c
 (* ---- item induction ----------------------------------------------------------- *)
 Section ItemInd.
   Variable P : item -> Prop.
-  Hypothesis H : forall t g r rf ks, Forall P ks -> P (Item t g r rf ks).
+  Hypothesis H : forall t g r rf ats ks, Forall P ks -> P (Item t g r rf ats ks).
   Fixpoint item_ind' (it : item) : P it :=
     match it with
-    | Item t g r rf ks =>
-        H t g r rf ks
+    | Item t g r rf ats ks =>
+        H t g r rf ats ks
           ((fix go (l : list item) : Forall P l :=
               match l with
               | [] => Forall_nil P
@@ -52,11 +52,11 @@ Proof. induction 1 as [|x l Hx _ IH]; cbn [flat_map]; [reflexivity|]. now rewrit
 
 Lemma find_item_recursive : forall p it, find_item true p it = filter p (preorder it).
 Proof.
-  intros p it. induction it as [t g r rf ks IH] using item_ind'.
+  intros p it. induction it as [t g r rf ats ks IH] using item_ind'.
   cbn [find_item preorder filter].
   rewrite filter_flat_map.
   rewrite (flat_map_ext_Forall _ _ ks IH).
-  destruct (p (Item t g r rf ks)); reflexivity.
+  destruct (p (Item t g r rf ats ks)); reflexivity.
 Qed.
 
 Lemma find_item_flat : forall p it, find_item false p it = filter p [it].
@@ -87,7 +87,7 @@ Proof. intros node k Hk. unfold descendants. apply in_flat_map. exists k. split;
 
 Lemma preorder_trans : forall a b c, In b (preorder a) -> In c (preorder b) -> In c (preorder a).
 Proof.
-  intros a. induction a as [t g r rf ks IH] using item_ind'. intros b c Hb Hc.
+  intros a. induction a as [t g r rf ats ks IH] using item_ind'. intros b c Hb Hc.
   cbn [preorder] in Hb. destruct Hb as [<-|Hb]; [assumption|].
   cbn [preorder]. right. apply in_flat_map in Hb. destruct Hb as [k [Hk Hb]].
   apply in_flat_map. exists k. split; [assumption|].
@@ -100,7 +100,7 @@ Proof.
   apply in_flat_map in Hb. destruct Hb as [k [Hk Hb]].
   apply in_flat_map. exists k. split; [assumption|].
   eapply preorder_trans; [eassumption|].
-  destruct b as [t g r rf ks]. cbn [preorder i_kids] in *. now right.
+  destruct b as [t g r rf ats ks]. cbn [preorder i_kids] in *. now right.
 Qed.
 
 (* ---- grouping ----------------------------------------------------------------- *)
